@@ -51,13 +51,20 @@ class _Linalg:
 
     def norm(self, x, ord=None, axis=None, keepdims=False):
         np_ = self._np
+        cls = type(x) if isinstance(x, _np.ndarray) and type(x) is not _np.ndarray else None
         x = _np.asarray(x)
         if x.dtype != object:
             return _np.linalg.norm(x, ord=ord, axis=axis, keepdims=keepdims)
         if ord not in (None, 2, "fro"):
             raise Unsupported(f"norm ord={ord}")
         s = _np.sum(x * x, axis=axis, keepdims=keepdims)
-        return np_.sqrt(s, _opaque_ok=True)
+        res = np_.sqrt(s, _opaque_ok=True)
+        if cls is not None and axis is not None and isinstance(res, _np.ndarray) and res.ndim >= 2:
+            # numpy dispatches the function to the array subclass (FeArray.__array_function__): a norm over tensor axes of a field is a field; the shim keeps that
+            axes = axis if isinstance(axis, tuple) else (axis,)
+            if all((a >= 2 if a >= 0 else a >= 2 - x.ndim) for a in axes):
+                res = res.view(cls)
+        return res
 
     def det(self, a):
         a = _np.asarray(a)
